@@ -204,7 +204,7 @@ impl Gen {
         // the visible schema = the non-dropped keyspaces in their current definition
         let names: Vec<String> = self.kss.iter().map(|k| k.name.clone()).collect();
         self.kss = self.kss_full.iter().filter(|k| names.contains(&k.name)).cloned().collect();
-        Op::Refresh { peers: self.current_peers(), keyspaces: self.kss.clone() }
+        Op::Refresh { peers: self.current_peers(), keyspaces: self.kss.clone(), partial: false }
     }
 }
 
@@ -276,7 +276,20 @@ fn one_history(o: &mut Outcome, rt: &tokio::runtime::Runtime, rng: &mut Rng, len
     for step in 0..len {
         let op = if rng.chance(1, 7) {
             let wanted: Vec<u128> = w.model.tables.values().flatten().filter(|t| t.unresolved).flat_map(|t| t.full.iter().map(|r| r.0)).collect();
-            g.refresh(rng, &wanted)
+            if rng.chance(1, 3) {
+                // partial topology refresh: whatever the generator did to the schema is taken back
+                let (k, kf) = (g.kss.clone(), g.kss_full.clone());
+                let op = g.refresh(rng, &wanted);
+                g.kss = k;
+                g.kss_full = kf;
+                o.class("maint:partial-topology-refresh");
+                match op {
+                    Op::Refresh { peers, .. } => Op::Refresh { peers, keyspaces: w.keyspaces.clone(), partial: true },
+                    other => other,
+                }
+            } else {
+                g.refresh(rng, &wanted)
+            }
         } else {
             let (k, t) = g.weighted_table(rng);
             let (first, last) = g.range(rng);
